@@ -643,3 +643,164 @@ Section phase4.
       destruct (filter (λ x, x ≠ tid) (x0 :: l0)) as [|y l']; [inversion Huf|eexists; reflexivity].
   Qed.
 End phase4.
+
+(** * F. Phase (3): [update_mined_balance] *)
+
+Definition zero_cv : credval := {| c_amt := 0; c_spent := false; c_change := false; c_by := None |}.
+
+Definition umb_in (h : txid) (bh : Z) (bhash : N) (acc : store * Z) (ii : N * outpoint) : store * Z :=
+  let '(s1, nb) := acc in
+  let '(i, op) := ii in
+  match cred_key_of_unspent s1 op with
+  | None => (s1, nb)
+  | Some ck =>
+    let spender : credkey := (h, bh, bhash, i) in
+    let cv := default zero_cv (credits s1 !! ck) in
+    let amt := c_amt cv in
+    let s2 := set_credits (<[ck := {| c_amt := amt; c_spent := true; c_change := c_change cv; c_by := Some spender |}]>) s1 in
+    let s3 := set_debits (<[spender := (amt, ck)]>) s2 in
+    let s4 := set_unspent (delete op) s3 in
+    (s4, nb - amt)
+  end.
+
+Definition umb_mc (h : txid) (bh : Z) (bhash : N) (acc : store * Z) (kv : outpoint * (Z * bool)) : store * Z :=
+  let '(s1, nb) := acc in
+  let '(op, (amt, chg)) := kv in
+  let ck : credkey := (h, bh, bhash, op.2) in
+  let s2 := set_credits (<[ck := {| c_amt := amt; c_spent := false; c_change := chg; c_by := None |}]>) s1 in
+  let s3 := set_unspent (<[op := (bh, bhash)]>) s2 in
+  (s3, nb + amt).
+
+Lemma umb_eq t bh bhash s :
+  update_mined_balance t (bh, bhash) s =
+  let '(s5, nb1) := foldl (umb_in (t_id t) bh bhash) (s, bal s) (zip (indices (t_ins t)) (t_ins t)) in
+  let '(s6, nb2) := foldl (umb_mc (t_id t) bh bhash) (s5, nb1)
+                      (filter (fun kv => kv.1.1 = t_id t) (map_to_list (unmined_credits s5))) in
+  set_bal (fun _ => nb2) s6.
+Proof. reflexivity. Qed.
+
+Section phase3.
+  Context (U : universe).
+
+  Definition usum (m : gmap (N * N) (Z * N)) : Z :=
+    sumZ (map (fun kv : outpoint * blockid => amount_of U kv.1) (map_to_list m)).
+
+  Lemma usum_insert m k v : m !! k = None → usum (<[k := v]> m) = amount_of U k + usum m.
+  Proof. intros Hk. unfold usum. rewrite (sum_map_insert _ m k v Hk). reflexivity. Qed.
+
+  Lemma usum_delete m k v : m !! k = Some v → usum m = amount_of U k + usum (delete k m).
+  Proof. intros Hk. unfold usum. rewrite (sum_map_delete _ m k v Hk). reflexivity. Qed.
+
+  Context (h : txid) (bh : Z) (bhash : N).
+
+  (** ** the debit loop *)
+  Record PostIn (s : store) (nb0 : Z) (iis : list (N * outpoint)) (r : store * Z) : Prop := {
+    pi_blocks : blocks r.1 = blocks s;
+    pi_txrecs : txrecs r.1 = txrecs s;
+    pi_unmined : unmined r.1 = unmined s;
+    pi_unmined_credits : unmined_credits r.1 = unmined_credits s;
+    pi_unmined_inputs : unmined_inputs r.1 = unmined_inputs s;
+    pi_locked : locked r.1 = locked s;
+    pi_unspent : ∀ op', unspent r.1 !! op' = if decide (op' ∈ iis.*2) then None else unspent s !! op';
+    pi_credits_other : ∀ ck',
+        (∀ i op h' bh', (i, op) ∈ iis → unspent s !! op = Some (h', bh') → ck' ≠ (op.1, h', bh', op.2)) →
+        credits r.1 !! ck' = credits s !! ck';
+    pi_credits_spent : ∀ i op h' bh' cv,
+        (i, op) ∈ iis → unspent s !! op = Some (h', bh') → credits s !! (op.1, h', bh', op.2) = Some cv →
+        ∃ by_, credits r.1 !! (op.1, h', bh', op.2) =
+               Some {| c_amt := c_amt cv; c_spent := true; c_change := c_change cv; c_by := by_ |};
+    pi_debits_other : ∀ dk,
+        (∀ i op, (i, op) ∈ iis → is_Some (unspent s !! op) → dk ≠ (h, bh, bhash, i)) →
+        debits r.1 !! dk = debits s !! dk;
+    pi_debits_new : ∀ i op h' bh',
+        (i, op) ∈ iis → unspent s !! op = Some (h', bh') →
+        debits r.1 !! (h, bh, bhash, i) = Some (amount_of U op, (op.1, h', bh', op.2));
+    pi_bal : r.2 - usum (unspent r.1) = nb0 - usum (unspent s);
+  }.
+
+  Lemma umb_in_fold s nb0 (iis : list (N * outpoint)) :
+    NoDup iis.*1 → NoDup iis.*2 →
+    (∀ i op h' bh', (i, op) ∈ iis → unspent s !! op = Some (h', bh') →
+       ∃ cv, credits s !! (op.1, h', bh', op.2) = Some cv ∧ c_amt cv = amount_of U op) →
+    PostIn s nb0 iis (foldl (umb_in h bh bhash) (s, nb0) iis).
+  Proof.
+    induction iis as [|[i op] iis IH] using rev_ind; intros Hnd1 Hnd2 Hcred.
+    - simpl. constructor; try reflexivity; simpl.
+      + intros i op h' bh' cv Hin. inversion Hin.
+      + intros i op h' bh' Hin. inversion Hin.
+    - rewrite fmap_app in Hnd1, Hnd2. simpl in Hnd1, Hnd2.
+      apply NoDup_app in Hnd1. destruct Hnd1 as (Hnd1 & Hi & _).
+      apply NoDup_app in Hnd2. destruct Hnd2 as (Hnd2 & Hop & _).
+      assert (Hinew : i ∉ iis.*1). { intros Hin. apply (Hi i Hin). left. }
+      assert (Hopnew : op ∉ iis.*2). { intros Hin. apply (Hop op Hin). left. }
+      assert (Hcred' : ∀ i0 op0 h' bh', (i0, op0) ∈ iis → unspent s !! op0 = Some (h', bh') →
+                ∃ cv, credits s !! (op0.1, h', bh', op0.2) = Some cv ∧ c_amt cv = amount_of U op0).
+      { intros i0 op0 h' bh' Hin. apply Hcred. apply elem_of_app. left. exact Hin. }
+      specialize (IH Hnd1 Hnd2 Hcred').
+      rewrite foldl_snoc. destruct (foldl (umb_in h bh bhash) (s, nb0) iis) as [s1 nb] eqn:Hfold.
+      destruct IH as [Hb Ht Hu Hmc Hmi Hl Hus Hco Hcs Hdo Hdn Hbal]. simpl in *.
+      assert (Hus_op : unspent s1 !! op = unspent s !! op).
+      { rewrite Hus. destruct (decide (op ∈ iis.*2)); [contradiction|reflexivity]. }
+      assert (Hmem : ∀ i0 op0, (i0, op0) ∈ iis ++ [(i, op)] ↔ (i0, op0) ∈ iis ∨ (i0 = i ∧ op0 = op)).
+      { intros i0 op0. rewrite elem_of_app, elem_of_list_singleton. split; intros [Hin|Heq]; auto.
+        - right. inversion Heq; auto.
+        - right. destruct Heq as [-> ->]. reflexivity. }
+      assert (Hmem2 : ∀ op', op' ∈ (iis ++ [(i, op)]).*2 ↔ op' ∈ iis.*2 ∨ op' = op).
+      { intros op'. rewrite fmap_app, elem_of_app. simpl. rewrite elem_of_list_singleton. tauto. }
+      assert (Hin_fst : ∀ i0 op0, (i0, op0) ∈ iis → i0 ∈ iis.*1).
+      { intros i0 op0 Hin. apply elem_of_list_fmap. exists (i0, op0). split; [reflexivity|exact Hin]. }
+      assert (Hin_snd : ∀ i0 op0, (i0, op0) ∈ iis → op0 ∈ iis.*2).
+      { intros i0 op0 Hin. apply elem_of_list_fmap. exists (i0, op0). split; [reflexivity|exact Hin]. }
+      unfold cred_key_of_unspent. rewrite Hus_op.
+      destruct (unspent s !! op) as [[h' bh']|] eqn:Hop_s.
+      + (* the input is an unspent mined credit *)
+        destruct (Hcred i op h' bh') as (cv & Hcv & Hamt); [apply Hmem; right; auto|exact Hop_s|].
+        assert (Hcv1 : credits s1 !! (op.1, h', bh', op.2) = Some cv).
+        { rewrite Hco; [exact Hcv|]. intros i0 op0 h0 bh0 Hin Hu0 Heq. inversion Heq as [[H1 H2 H3 H4]].
+          apply Hopnew. replace op with op0; [eapply Hin_snd; exact Hin|].
+          destruct op, op0; simpl in *; congruence. }
+        rewrite Hcv1. simpl. constructor; simpl; try assumption.
+        * intros op'. destruct (decide (op' = op)) as [->|Hne].
+          -- rewrite lookup_delete. destruct (decide (op ∈ (iis ++ [(i, op)]).*2)) as [_|Hn]; [reflexivity|].
+             exfalso. apply Hn. apply Hmem2. right. reflexivity.
+          -- rewrite lookup_delete_ne by congruence. rewrite Hus.
+             destruct (decide (op' ∈ iis.*2)) as [Hin|Hin];
+               destruct (decide (op' ∈ (iis ++ [(i, op)]).*2)) as [Hin'|Hin']; try reflexivity.
+             ++ exfalso. apply Hin'. apply Hmem2. left. exact Hin.
+             ++ exfalso. apply Hmem2 in Hin'. destruct Hin'; contradiction.
+        * intros ck' Hck'. rewrite lookup_insert_ne.
+          -- apply Hco. intros i0 op0 h0 bh0 Hin. apply Hck'. apply Hmem. left. exact Hin.
+          -- intros Heq. apply (Hck' i op h' bh'); [apply Hmem; right; auto|exact Hop_s|]. symmetry. exact Heq.
+        * intros i0 op0 h0 bh0 cv0 Hin Hu0 Hcv0. apply Hmem in Hin. destruct Hin as [Hin|[-> ->]].
+          -- rewrite lookup_insert_ne; [eapply Hcs; eassumption|].
+             intros Heq. inversion Heq as [[H1 H2 H3 H4]]. apply Hopnew.
+             replace op with op0; [eapply Hin_snd; exact Hin|]. destruct op, op0; simpl in *; congruence.
+          -- rewrite Hop_s in Hu0. inversion Hu0; subst h0 bh0. rewrite Hcv in Hcv0. inversion Hcv0; subst cv0.
+             rewrite lookup_insert. eexists. reflexivity.
+        * intros dk Hdk. rewrite lookup_insert_ne.
+          -- apply Hdo. intros i0 op0 Hin. apply Hdk. apply Hmem. left. exact Hin.
+          -- intros Heq. apply (Hdk i op); [apply Hmem; right; auto|rewrite Hop_s; eexists; reflexivity|].
+             symmetry. exact Heq.
+        * intros i0 op0 h0 bh0 Hin Hu0. apply Hmem in Hin. destruct Hin as [Hin|[-> ->]].
+          -- rewrite lookup_insert_ne; [eapply Hdn; eassumption|].
+             intros Heq. inversion Heq; subst i0. apply Hinew. eapply Hin_fst. exact Hin.
+          -- rewrite Hop_s in Hu0. inversion Hu0; subst h0 bh0. rewrite lookup_insert. rewrite Hamt. reflexivity.
+        * assert (Hs1op : unspent s1 !! op = Some (h', bh')) by (rewrite Hus_op; reflexivity).
+          rewrite (usum_delete _ _ _ Hs1op) in Hbal. lia.
+      + (* not ours / already spent: skipped *)
+        constructor; simpl; try assumption.
+        * intros op'. rewrite Hus.
+          destruct (decide (op' ∈ iis.*2)) as [Hin|Hin];
+            destruct (decide (op' ∈ (iis ++ [(i, op)]).*2)) as [Hin'|Hin']; try reflexivity.
+          -- exfalso. apply Hin'. apply Hmem2. left. exact Hin.
+          -- apply Hmem2 in Hin'. destruct Hin' as [?|->]; [contradiction|]. symmetry. exact Hop_s.
+        * intros ck' Hck'. apply Hco. intros i0 op0 h0 bh0 Hin. apply Hck'. apply Hmem. left. exact Hin.
+        * intros i0 op0 h0 bh0 cv0 Hin Hu0 Hcv0. apply Hmem in Hin. destruct Hin as [Hin|[-> ->]].
+          -- eapply Hcs; eassumption.
+          -- rewrite Hop_s in Hu0. discriminate.
+        * intros dk Hdk. apply Hdo. intros i0 op0 Hin. apply Hdk. apply Hmem. left. exact Hin.
+        * intros i0 op0 h0 bh0 Hin Hu0. apply Hmem in Hin. destruct Hin as [Hin|[-> ->]].
+          -- eapply Hdn; eassumption.
+          -- rewrite Hop_s in Hu0. discriminate.
+  Qed.
+End phase3.
